@@ -6,6 +6,7 @@ import (
 	"fmt"
 	"os"
 	"runtime/debug"
+	"strings"
 	"testing"
 	"time"
 
@@ -13,7 +14,8 @@ import (
 )
 
 // TestReplay re-executes one counterexample natively. Output protocol (one line):
-//   REPLAY <obligation> label=<l> result=<reproduced|not-reproduced|assume-failed|hang|panic:<msg>>
+//
+//	REPLAY <obligation> label=<l> result=<reproduced|not-reproduced|assume-failed|hang|panic:<msg>>
 func TestReplay(t *testing.T) {
 	path := os.Getenv("VERIF_CASE")
 	if path == "" {
@@ -27,6 +29,30 @@ func TestReplay(t *testing.T) {
 	if !ok {
 		t.Fatalf("unknown obligation %s", c.Obligation)
 	}
+	// a counterexample that depends on the runtime's map iteration order is retried: the order is random per run
+	tries := 1
+	for _, e := range c.Env {
+		if strings.HasPrefix(e, "maporder@") {
+			tries = 80
+		}
+	}
+	var outcome, result string
+	for try := 0; try < tries; try++ {
+		if try > 0 {
+			if err := sym.Load(path); err != nil {
+				t.Fatal(err)
+			}
+			c = sym.Current
+		}
+		outcome, result = replayOnce(c, fn)
+		if result == "reproduced" {
+			break
+		}
+	}
+	fmt.Printf("REPLAY %s label=%s kind=%s result=%s outcome=%q failed=%v kfhits=%v\n", c.Obligation, c.Label, c.Kind, result, outcome, sym.FailedAsserts, sym.KFHits)
+}
+
+func replayOnce(c *sym.Case, fn func()) (string, string) {
 	done := make(chan string, 1)
 	go func() {
 		defer func() {
@@ -75,5 +101,5 @@ func TestReplay(t *testing.T) {
 			result = "assume-failed"
 		}
 	}
-	fmt.Printf("REPLAY %s label=%s kind=%s result=%s outcome=%q failed=%v kfhits=%v\n", c.Obligation, c.Label, c.Kind, result, outcome, sym.FailedAsserts, sym.KFHits)
+	return outcome, result
 }
